@@ -17,7 +17,7 @@ import vlib, e2e
 from vlib import coq_str, coq_list, coq_bool
 
 PROP = "C17"
-IMPORTS = ["Base.Str", "Model.Junit", "Proofs.Junit"]
+IMPORTS = ["Base.Str", "Model.Junit"]
 PRELUDE = """
 Definition enc_kind (k : jkind) : N := match k with KFailure => 0 | KError => 1 end.
 Definition enc_rerun (r : jrerun) : list N := [enc_kind (rr_kind r); rr_attempt r; b2n (rr_stored r)].
